@@ -235,52 +235,48 @@ Proof.
   rewrite (sim_sub Lb La b a (fun p q => iff_sym (Hreach p q)) (fun n => iff_sym (Hnm n)) E2 E1 Db Da). reflexivity.
 Qed.
 
-(* ================================================================================================ Part 4: a group replaced by its merge *)
+(* ================================================================================================ Part 4: groups replaced by their merges *)
+(* G: the groups, each a list of inputs X with a type system r that describes their declarations (the result of merging
+   them, or of merging a regrouping of them); Ys: the inputs that stay as they are.  Z1 is made of the r's and Ys, Z of the
+   X's and Ys (in any order, with any repetition). *)
 Section Regroup.
-  Variables (X Ys : list tsys) (r : tsys) (Z1 Z : list tsys).
-  Hypothesis HZ1 : forall ts, In ts Z1 <-> ts = r \/ In ts Ys.
-  Hypothesis HZ : forall ts, In ts Z <-> In ts X \/ In ts Ys.
+  Variables (G : list (list tsys * tsys)) (Ys Z1 Z : list tsys).
+  Hypothesis HZ1 : forall ts, In ts Z1 <-> (exists X, In (X, ts) G) \/ In ts Ys.
+  Hypothesis HZ : forall ts, In ts Z <-> (exists X r, In (X, r) G /\ In ts X) \/ In ts Ys.
   Hypothesis HWZ : all_WFh Z.
-  Hypothesis Hr : merge X = Ok r.
+  Hypothesis HG : forall X r, In (X, r) G -> describes (type_list X) r /\ sup_sound (type_list X) r.
   Let L := type_list Z.
   Let L1 := type_list Z1.
-  Let LX := type_list X.
 
-  Lemma rg_XZ : forall ts, In ts X -> In ts Z.
-  Proof. intros ts H. apply HZ. left. exact H. Qed.
-  Lemma rg_HWX : all_WFh X.
-  Proof. intros ts H. apply HWZ, rg_XZ, H. Qed.
-  Lemma rg_Dr : describes LX r.
-  Proof. apply (merge_describes X r rg_HWX Hr). Qed.
-  Lemma rg_Wr : WFh r.
-  Proof. apply (merge_WFh X r rg_HWX Hr). Qed.
+  Lemma rg_XZ X r : In (X, r) G -> forall ts, In ts X -> In ts Z.
+  Proof. intros HX ts H. apply HZ. left. exists X, r. auto. Qed.
+  Lemma rg_HWX X r : In (X, r) G -> all_WFh X.
+  Proof. intros HX ts H. apply HWZ, (rg_XZ X r HX), H. Qed.
   Lemma rg_HWZ1 : all_WFh Z1.
-  Proof. intros ts H. apply HZ1 in H. destruct H as [->|H]; [exact rg_Wr|apply HWZ, HZ; right; exact H]. Qed.
-  Lemma rg_sup_sound : sup_sound LX r.
-  Proof. apply (proj1 (merge_inv2 X r rg_HWX Hr)). Qed.
+  Proof. intros ts H. apply HZ1 in H. destruct H as [(X & HX)|H]; [apply (ds_WFh _ _ (proj1 (HG X ts HX)))|apply HWZ, HZ; right; exact H]. Qed.
 
   (* the edges of the regrouped tuple are declared edges of the flat one *)
   Lemma rg_edge1 x s : declared_edge L1 x s -> declared_edge L x s.
   Proof.
-    intros [H|H]; [left; exact H|]. apply user_edge_inputs in H. destruct H as (ts & Hts & t & Ht & Hn & Hs). apply HZ1 in Hts. destruct Hts as [->|Hts].
-    - apply user_types_In in Ht. destruct Ht as [Hin _]. pose proof (In_find_ty _ _ (wf_nodup _ rg_Wr) Hin) as Hf. rewrite Hn in Hf.
-      destruct (rg_sup_sound x t s Hf Hs) as [Hb|Hu]; [left; exact Hb|right; apply (sub_user_edge X Z rg_XZ); exact Hu].
+    intros [H|H]; [left; exact H|]. apply user_edge_inputs in H. destruct H as (ts & Hts & t & Ht & Hn & Hs). apply HZ1 in Hts. destruct Hts as [(X & HX)|Hts].
+    - destruct (HG X ts HX) as [D SS]. apply user_types_In in Ht. destruct Ht as [Hin _]. pose proof (In_find_ty _ _ (wf_nodup _ (ds_WFh _ _ D)) Hin) as Hf. rewrite Hn in Hf.
+      destruct (SS x t s Hf Hs) as [Hb|Hu]; [left; exact Hb|right; apply (sub_user_edge X Z (rg_XZ X ts HX)); exact Hu].
     - right. apply user_edge_inputs. exists ts. split; [apply HZ; right; exact Hts|]. exists t. auto.
   Qed.
-  (* every supertype link of r is a declared edge of the regrouped tuple *)
-  Lemma rg_r_edge d td s : find_ty r d = Some td -> t_super td = Some s -> declared_edge L1 d s.
+  (* every supertype link of a group's result is a declared edge of the regrouped tuple *)
+  Lemma rg_r_edge X r d td s : In (X, r) G -> find_ty r d = Some td -> t_super td = Some s -> declared_edge L1 d s.
   Proof.
-    intros Hf Hs. destruct (find_ty_In _ _ _ Hf) as [Hin Hn]. destruct (is_predef d) eqn:Ep.
-    - destruct (rg_sup_sound d td s Hf Hs) as [Hb|(d0 & Hd0 & Hn0 & _)]; [left; exact Hb|].
-      exfalso. pose proof (type_list_no_predef X rg_HWX d0 Hd0) as Hp. rewrite Hn0 in Hp. congruence.
-    - right. apply user_edge_inputs. exists r. split; [apply HZ1; left; reflexivity|]. exists td. split; [apply user_types_In; rewrite Hn; auto|auto].
+    intros HX Hf Hs. destruct (HG X r HX) as [D SS]. destruct (find_ty_In _ _ _ Hf) as [Hin Hn]. destruct (is_predef d) eqn:Ep.
+    - destruct (SS d td s Hf Hs) as [Hb|(d0 & Hd0 & Hn0 & _)]; [left; exact Hb|].
+      exfalso. pose proof (type_list_no_predef X (rg_HWX X r HX) d0 Hd0) as Hp. rewrite Hn0 in Hp. congruence.
+    - right. apply user_edge_inputs. exists r. split; [apply HZ1; left; exists X; exact HX|]. exists td. split; [apply user_types_In; rewrite Hn; auto|auto].
   Qed.
-  Lemma rg_below_r a d : below r a d -> dreach L1 a d.
-  Proof. intros H. induction H as [|d td s Hf Hs Hb IH]; [apply dr_refl|]. eapply dr_step; [apply (rg_r_edge d td s Hf Hs)|exact IH]. Qed.
+  Lemma rg_below_r X r a d : In (X, r) G -> below r a d -> dreach L1 a d.
+  Proof. intros HX H. induction H as [|d td s Hf Hs Hb IH]; [apply dr_refl|]. eapply dr_step; [apply (rg_r_edge X r d td s HX Hf Hs)|exact IH]. Qed.
   Lemma rg_edge_back x s : declared_edge L x s -> dreach L1 s x.
   Proof.
-    intros [H|H]; [apply edge_dreach; left; exact H|]. apply user_edge_inputs in H. destruct H as (ts & Hts & He). apply HZ in Hts. destruct Hts as [Hts|Hts].
-    - apply rg_below_r. apply (ds_below _ _ rg_Dr). apply edge_dreach. right. apply user_edge_inputs. exists ts. auto.
+    intros [H|H]; [apply edge_dreach; left; exact H|]. apply user_edge_inputs in H. destruct H as (ts & Hts & He). apply HZ in Hts. destruct Hts as [(X & r & HX & Hts)|Hts].
+    - apply (rg_below_r X r s x HX). apply (ds_below _ _ (proj1 (HG X r HX))). apply edge_dreach. right. apply user_edge_inputs. exists ts. auto.
     - apply edge_dreach. right. apply user_edge_inputs. exists ts. split; [apply HZ1; right; exact Hts|exact He].
   Qed.
   Lemma rg_reach a d : dreach L a d <-> dreach L1 a d.
@@ -289,48 +285,54 @@ Section Regroup.
     - induction H as [|d s He Hr' IH]; [apply dr_refl|]. eapply dreach_trans; [exact IH|apply rg_edge_back; exact He].
     - induction H as [|d s He Hr' IH]; [apply dr_refl|]. eapply dr_step; [apply rg_edge1; exact He|exact IH].
   Qed.
+  Lemma dnames_inputs inputs m : In m (dnames (type_list inputs)) <-> exists ts t, In ts inputs /\ In t (user_types ts) /\ t_name t = m.
+  Proof.
+    unfold dnames. rewrite in_map_iff. split.
+    - intros (d & Hn & Hd). destruct (type_list_from_In _ _ _ Hd) as (ts & Hts & Hu). exists ts, (d_ty d). auto.
+    - intros (ts & t & Hts & Ht & Hn). destruct (type_list_has inputs ts t Hts Ht) as (d & Hd & E). exists d. unfold dname. rewrite E. auto.
+  Qed.
   Lemma rg_names n : nm_ok L n <-> nm_ok L1 n.
   Proof.
-    assert (Hdn : forall inputs m, In m (dnames (type_list inputs)) <-> exists ts t, In ts inputs /\ In t (user_types ts) /\ t_name t = m).
-    { intros inputs m. unfold dnames. rewrite in_map_iff. split.
-      - intros (d & Hn & Hd). destruct (type_list_from_In _ _ _ Hd) as (ts & Hts & Hu). exists ts, (d_ty d). auto.
-      - intros (ts & t & Hts & Ht & Hn). destruct (type_list_has inputs ts t Hts Ht) as (d & Hd & E). exists d. unfold dname. rewrite E. auto. }
-    unfold nm_ok. split; (intros [H|H]; [left; exact H|]); apply Hdn in H; destruct H as (ts & t & Hts & Ht & Hn).
-    - apply HZ in Hts. destruct Hts as [Hts|Hts].
-      + assert (Hreg : registered r n = true).
-        { apply (ds_names _ _ rg_Dr). right. apply Hdn. exists ts, t. auto. }
+    unfold nm_ok. split; (intros [H|H]; [left; exact H|]); apply dnames_inputs in H; destruct H as (ts & t & Hts & Ht & Hn).
+    - apply HZ in Hts. destruct Hts as [(X & r & HX & Hts)|Hts].
+      + destruct (HG X r HX) as [D _].
+        assert (Hreg : registered r n = true).
+        { apply (ds_names _ _ D). right. apply dnames_inputs. exists ts, t. auto. }
         destruct (is_predef n) eqn:Ep; [left; apply predef_in_init; exact Ep|right]. apply registered_iff in Hreg. destruct Hreg as (tr & Htr).
-        destruct (find_ty_In _ _ _ Htr) as [Hin Hnn]. apply Hdn. exists r, tr. split; [apply HZ1; left; reflexivity|]. split; [apply user_types_In; rewrite Hnn; auto|exact Hnn].
-      + right. apply Hdn. exists ts, t. split; [apply HZ1; right; exact Hts|auto].
-    - apply HZ1 in Hts. destruct Hts as [->|Hts].
-      + apply user_types_In in Ht. destruct Ht as [Hin _]. assert (Hreg : registered r n = true) by (apply registered_iff; exists t; rewrite <- Hn; apply (In_find_ty _ _ (wf_nodup _ rg_Wr) Hin)).
-        apply (ds_names _ _ rg_Dr) in Hreg. destruct Hreg as [Hreg|Hreg]; [left; exact Hreg|right].
-        apply Hdn in Hreg. destruct Hreg as (ts' & t' & Hts' & Ht' & Hn'). apply Hdn. exists ts', t'. split; [apply rg_XZ; exact Hts'|auto].
-      + right. apply Hdn. exists ts, t. split; [apply HZ; right; exact Hts|auto].
+        destruct (find_ty_In _ _ _ Htr) as [Hin Hnn]. apply dnames_inputs. exists r, tr. split; [apply HZ1; left; exists X; exact HX|]. split; [apply user_types_In; rewrite Hnn; auto|exact Hnn].
+      + right. apply dnames_inputs. exists ts, t. split; [apply HZ1; right; exact Hts|auto].
+    - apply HZ1 in Hts. destruct Hts as [(X & HX)|Hts].
+      + destruct (HG X ts HX) as [D _]. apply user_types_In in Ht. destruct Ht as [Hin _].
+        assert (Hreg : registered ts n = true) by (apply registered_iff; exists t; rewrite <- Hn; apply (In_find_ty _ _ (wf_nodup _ (ds_WFh _ _ D)) Hin)).
+        apply (ds_names _ _ D) in Hreg. destruct Hreg as [Hreg|Hreg]; [left; exact Hreg|right].
+        apply dnames_inputs in Hreg. destruct Hreg as (ts' & t' & Hts' & Ht' & Hn'). apply dnames_inputs. exists ts', t'. split; [apply (rg_XZ X ts HX); exact Hts'|auto].
+      + right. apply dnames_inputs. exists ts, t. split; [apply HZ; right; exact Hts|auto].
   Qed.
   Lemma rg_feat1 A f : declared_feat L1 A f -> declared_feat L A f.
   Proof.
-    intros [H|H]; [left; exact H|]. apply user_feat_inputs in H. destruct H as (ts & Hts & t & Ht & Hn & Hf). apply HZ1 in Hts. destruct Hts as [->|Hts].
-    - apply user_types_In in Ht. destruct Ht as [Hin _]. pose proof (ds_own _ _ rg_Dr t f Hin Hf) as D. rewrite Hn in D. apply (sub_feat X Z rg_XZ). exact D.
+    intros [H|H]; [left; exact H|]. apply user_feat_inputs in H. destruct H as (ts & Hts & t & Ht & Hn & Hf). apply HZ1 in Hts. destruct Hts as [(X & HX)|Hts].
+    - destruct (HG X ts HX) as [D _]. apply user_types_In in Ht. destruct Ht as [Hin _]. pose proof (ds_own _ _ D t f Hin Hf) as D0. rewrite Hn in D0.
+      apply (sub_feat X Z (rg_XZ X ts HX)). exact D0.
     - right. apply user_feat_inputs. exists ts. split; [apply HZ; right; exact Hts|]. exists t. auto.
   Qed.
-  Lemma rg_r_own A t g : find_ty r A = Some t -> In g (t_own t) -> declared_feat L1 A g.
+  Lemma rg_r_own X r A t g : In (X, r) G -> find_ty r A = Some t -> In g (t_own t) -> declared_feat L1 A g.
   Proof.
-    intros Hf Hg. destruct (find_ty_In _ _ _ Hf) as [Hin Hn]. destruct (is_predef A) eqn:Ep.
-    - pose proof (ds_own _ _ rg_Dr t g Hin Hg) as D. rewrite Hn in D. destruct D as [D|(d0 & Hd0 & Hn0 & _)]; [left; exact D|].
-      exfalso. pose proof (type_list_no_predef X rg_HWX d0 Hd0) as Hp. rewrite Hn0 in Hp. congruence.
-    - right. apply user_feat_inputs. exists r. split; [apply HZ1; left; reflexivity|]. exists t. split; [apply user_types_In; rewrite Hn; auto|auto].
+    intros HX Hf Hg. destruct (HG X r HX) as [D _]. destruct (find_ty_In _ _ _ Hf) as [Hin Hn]. destruct (is_predef A) eqn:Ep.
+    - pose proof (ds_own _ _ D t g Hin Hg) as D0. rewrite Hn in D0. destruct D0 as [D0|(d0 & Hd0 & Hn0 & _)]; [left; exact D0|].
+      exfalso. pose proof (type_list_no_predef X (rg_HWX X r HX) d0 Hd0) as Hp. rewrite Hn0 in Hp. congruence.
+    - right. apply user_feat_inputs. exists r. split; [apply HZ1; left; exists X; exact HX|]. exists t. split; [apply user_types_In; rewrite Hn; auto|auto].
   Qed.
   Lemma rg_expose : exposes L L1.
   Proof.
     intros A f [H|H].
     - exists A, f. split; [left; exact H|]. split; [apply dr_refl|apply feat_eqb_refl].
-    - apply user_feat_inputs in H. destruct H as (ts & Hts & Hf). apply HZ in Hts. destruct Hts as [Hts|Hts].
-      + assert (D : declared_feat LX A f) by (right; apply user_feat_inputs; exists ts; auto).
-        destruct (ds_has _ _ rg_Dr A f D) as (t & g & Ht & Hg & He). destruct (find_ty_In _ _ _ Ht) as [Hin Hn]. apply in_app_or in Hg. destruct Hg as [Hg|Hg].
-        * exists A, g. split; [apply (rg_r_own A t g Ht Hg)|]. split; [apply dr_refl|exact He].
-        * destruct (wf_inh_sound _ (ds_WFf _ _ rg_Dr) t g Hin Hg) as (A' & ta & Hs & Ha & Ho). rewrite Hn in Hs.
-          exists A', g. split; [apply (rg_r_own A' ta g Ha Ho)|]. split; [apply rg_below_r, sbelow_below; exact Hs|exact He].
+    - apply user_feat_inputs in H. destruct H as (ts & Hts & Hf). apply HZ in Hts. destruct Hts as [(X & r & HX & Hts)|Hts].
+      + destruct (HG X r HX) as [D _].
+        assert (D0 : declared_feat (type_list X) A f) by (right; apply user_feat_inputs; exists ts; auto).
+        destruct (ds_has _ _ D A f D0) as (t & g & Ht & Hg & He). destruct (find_ty_In _ _ _ Ht) as [Hin Hn]. apply in_app_or in Hg. destruct Hg as [Hg|Hg].
+        * exists A, g. split; [apply (rg_r_own X r A t g HX Ht Hg)|]. split; [apply dr_refl|exact He].
+        * destruct (wf_inh_sound _ (ds_WFf _ _ D) t g Hin Hg) as (A' & ta & Hs & Ha & Ho). rewrite Hn in Hs.
+          exists A', g. split; [apply (rg_r_own X r A' ta g HX Ha Ho)|]. split; [apply (rg_below_r X r A' A HX), sbelow_below; exact Hs|exact He].
       + exists A, f. split; [right; apply user_feat_inputs; exists ts; split; [apply HZ1; right; exact Hts|exact Hf]|]. split; [apply dr_refl|apply feat_eqb_refl].
   Qed.
   Lemma rg_expose1 : exposes L1 L.
@@ -356,7 +358,8 @@ Section Regroup.
     intros H x s He. destruct (rg_edge1 x s (or_intror He)) as [Hb|Hu]; [apply (builtin_edge_predef x s Hb)|apply (H x s Hu)].
   Qed.
 
-  (* ---- and back: what the regrouped merge produced says that the flat declarations are mergeable and agree ---- *)
+  (* ---- and back: what the regrouped merge produced says that the flat declarations are mergeable and agree, and it
+          describes the flat declarations ---- *)
   Section Back.
     Variable ts1 : tsys.
     Hypothesis H1 : merge Z1 = Ok ts1.
@@ -384,7 +387,7 @@ Section Regroup.
       - intros x s He Hd. pose proof (rg_below1 s x (edge_dreach L x s He)) as B1. pose proof (rg_below1 x s Hd) as B2.
         destruct (below_cases _ _ _ B1) as [E|S1].
         + subst s. apply (no_self_edge Z x HWZ He).
-        + apply (sbelow_neq ts1 s s W1); [|reflexivity]. destruct S1 as (tx & s0 & Hfx & Hsx & Hbs). 
+        + apply (sbelow_neq ts1 s s W1); [|reflexivity]. destruct S1 as (tx & s0 & Hfx & Hsx & Hbs).
           destruct (below_cases _ _ _ B2) as [E|(tsx & s5 & Hf5 & Hs5 & Hb5)].
           * subst s. exists tx, s0. auto.
           * exists tsx, s5. repeat split; auto. eapply below_trans; [|exact Hb5]. eapply below_step; eassumption.
@@ -395,7 +398,29 @@ Section Regroup.
       pose proof rg_D1 as D1. intros A1 A2 f1 f2 Da Db Hn Hd.
       apply (chain_feats_agree ts1 A1 A2 f1 f2 (ds_WFh _ _ D1) (ds_WFf _ _ D1) (rg_has1 _ _ Da) (rg_has1 _ _ Db) (rg_below1 _ _ Hd) Hn).
     Qed.
+    (* the result of the regrouped merge describes the flat declarations *)
+    Lemma rg_describes_flat : describes L ts1 /\ sup_sound L ts1.
+    Proof.
+      pose proof rg_D1 as D1. split.
+      - constructor.
+        + apply (ds_WFh _ _ D1).
+        + apply (ds_WFf _ _ D1).
+        + intros n. rewrite (ds_names _ _ D1). symmetry. apply rg_names.
+        + intros a d. rewrite (ds_below _ _ D1). symmetry. apply rg_reach.
+        + apply rg_has1.
+        + intros t g Hin Hg. apply rg_feat1. apply (ds_own _ _ D1 t g Hin Hg).
+      - intros n t s Hf Hs. apply rg_edge1. apply (proj1 (merge_inv2 Z1 ts1 rg_HWZ1 H1) n t s Hf Hs).
+    Qed.
   End Back.
+
+  (* success of the regrouped merge and of the flat merge, under the side condition of the flat tuple *)
+  Lemma rg_forward : nofinal L -> side_cond L -> (exists ts, merge Z = Ok ts) -> exists ts1, merge Z1 = Ok ts1.
+  Proof.
+    intros NF SC (ts & E2). destruct (proj1 (merge_success_iff Z HWZ NF SC) (ex_intro _ ts E2)) as [MH HA].
+    apply (merge_succeeds Z1 rg_HWZ1 (rg_nofinal NF) (rg_side_cond SC) (rg_mergeable MH) (rg_AG HA)).
+  Qed.
+  Lemma rg_backward ts1 : nofinal L -> side_cond L -> merge Z1 = Ok ts1 -> exists ts, merge Z = Ok ts.
+  Proof. intros NF SC E1. apply (merge_succeeds Z HWZ NF SC (rg_back_mergeable ts1 E1) (rg_back_AG ts1 E1)). Qed.
 End Regroup.
 
 (* the nested merge: X first, its result takes the place of X among the other inputs *)
@@ -411,25 +436,23 @@ Proof.
   assert (HXZ : forall ts, In ts X -> In ts Z) by (intros ts H; apply HZ; left; exact H).
   pose proof (HWX X Z HXZ HWZ) as HWX.
   unfold merge_grouped, same_outcome. destruct (merge X) as [r|e|] eqn:EX; cbn [bind].
-  - pose proof (rg_HWZ1 X Ys r (Z1 r) Z (HZ1 r) HZ HWZ EX) as HW1.
+  - assert (HZ1' : forall ts, In ts (Z1 r) <-> (exists X0, In (X0, ts) [(X, r)]) \/ In ts Ys).
+    { intros ts. rewrite (HZ1 r ts). cbn [In]. split; (intros [H|H]; [left|right; exact H]).
+      - exists X. left. rewrite H. reflexivity.
+      - destruct H as (X0 & [H|[]]). inversion H. reflexivity. }
+    assert (HZ' : forall ts, In ts Z <-> (exists X0 r0, In (X0, r0) [(X, r)] /\ In ts X0) \/ In ts Ys).
+    { intros ts. rewrite (HZ ts). cbn [In]. split; (intros [H|H]; [left|right; exact H]).
+      - exists X, r. auto.
+      - destruct H as (X0 & r0 & [H|[]] & Hin). inversion H; subst X0 r0. exact Hin. }
+    assert (HG : forall X0 r0, In (X0, r0) [(X, r)] -> describes (type_list X0) r0 /\ sup_sound (type_list X0) r0).
+    { intros X0 r0 [H|[]]. inversion H; subst X0 r0. split; [apply (merge_describes X r HWX EX)|apply (proj1 (merge_inv2 X r HWX EX))]. }
+    pose proof (rg_HWZ1 [(X, r)] Ys (Z1 r) Z HZ1' HZ' HWZ HG) as HW1.
     destruct (merge (Z1 r)) as [ts1|e1|] eqn:E1; destruct (merge Z) as [ts|e2|] eqn:E2.
-    + (* both succeed: equivalent *)
-      apply (sim_equiv (type_list (Z1 r)) L ts1 ts).
-      * intros p q. symmetry. apply (rg_reach X Ys r (Z1 r) Z (HZ1 r) HZ HWZ EX).
-      * intros n. symmetry. apply (rg_names X Ys r (Z1 r) Z (HZ1 r) HZ HWZ EX).
-      * apply (rg_expose1 X Ys r (Z1 r) Z (HZ1 r) HZ HWZ EX).
-      * apply (rg_expose X Ys r (Z1 r) Z (HZ1 r) HZ HWZ EX).
-      * apply (merge_describes _ _ HW1 E1).
-      * apply (merge_describes _ _ HWZ E2).
-    + (* the regrouped merge succeeded: so do the flat declarations *)
-      destruct (merge_succeeds Z HWZ NF SC (rg_back_mergeable X Ys r (Z1 r) Z (HZ1 r) HZ HWZ EX ts1 E1) (rg_back_AG X Ys r (Z1 r) Z (HZ1 r) HZ HWZ EX ts1 E1)) as (ts & Hts).
-      congruence.
+    + apply (describes_equiv L L ts1 ts (same_static_refl L) (type_list_has_supers _ HWZ) (type_list_has_supers _ HWZ)
+               (proj1 (rg_describes_flat [(X, r)] Ys (Z1 r) Z HZ1' HZ' HWZ HG ts1 E1)) (merge_describes _ _ HWZ E2)).
+    + destruct (rg_backward [(X, r)] Ys (Z1 r) Z HZ1' HZ' HWZ HG ts1 NF SC E1) as (ts & Hts). congruence.
     + apply (merge_terminates Z HWZ E2).
-    + (* the flat merge succeeded: so does the regrouped one *)
-      destruct (proj1 (merge_success_iff Z HWZ NF SC) (ex_intro _ ts E2)) as [MH HA].
-      destruct (merge_succeeds (Z1 r) HW1 (rg_nofinal X Ys r (Z1 r) Z (HZ1 r) HZ HWZ EX NF) (rg_side_cond X Ys r (Z1 r) Z (HZ1 r) HZ HWZ EX SC)
-                  (rg_mergeable X Ys r (Z1 r) Z (HZ1 r) HZ HWZ EX MH) (rg_AG X Ys r (Z1 r) Z (HZ1 r) HZ HWZ EX HA)) as (ts1 & Hts1).
-      congruence.
+    + destruct (rg_forward [(X, r)] Ys (Z1 r) Z HZ1' HZ' HWZ HG NF SC (ex_intro _ ts E2)) as (ts1 & Hts1). congruence.
     + split; [apply (merge_error_is_value _ e1 HW1 E1)|apply (merge_error_is_value Z e2 HWZ E2)].
     + apply (merge_terminates Z HWZ E2).
     + apply (merge_terminates _ HW1 E1).
@@ -466,4 +489,154 @@ Proof.
   intros HW NF SC. apply (merge_regroup [a; c] [b] (fun r => [r; b]) [a; b; c]); auto.
   - intros r ts. cbn [In]. intuition (subst; auto).
   - intros ts. cbn [In]. intuition (subst; auto).
+Qed.
+
+(* ================================================================================================ Part 5: arbitrary groupings *)
+(* a merge expression: an input, or merge_typesystems applied to sub-expressions (an exception propagates) *)
+Inductive gexp := GIn (ts : tsys) | GM (l : list gexp).
+Definition mapM {A B} (f : A -> res B) : list A -> res (list B) :=
+  fix go l := match l with [] => Ok [] | c :: r => do a <- f c;; do b <- go r;; Ok (a :: b) end.
+Fixpoint geval (e : gexp) : res tsys := match e with GIn ts => Ok ts | GM l => do tss <- mapM geval l;; merge tss end.
+Fixpoint leaves (e : gexp) : list tsys := match e with GIn ts => [ts] | GM l => flat_map leaves l end.
+
+Lemma gexp_ind' (P : gexp -> Prop) : (forall ts, P (GIn ts)) -> (forall l, Forall P l -> P (GM l)) -> forall e, P e.
+Proof. intros H1 H2. fix IH 1. intros [ts|l]; [apply H1|]. apply H2. induction l as [|c r IHl]; constructor; [apply IH|exact IHl]. Qed.
+
+(* the groups of a node: its sub-merges with their results; the plain inputs *)
+Fixpoint groups (l : list gexp) (tss : list tsys) : list (list tsys * tsys) :=
+  match l, tss with
+  | GM l' :: r, t :: tr => (leaves (GM l'), t) :: groups r tr
+  | GIn _ :: r, _ :: tr => groups r tr
+  | _, _ => []
+  end.
+Fixpoint plains (l : list gexp) : list tsys :=
+  match l with [] => [] | GIn a :: r => a :: plains r | GM _ :: r => plains r end.
+
+Lemma mapM_groups : forall l tss, mapM geval l = Ok tss ->
+  (forall ts, In ts tss <-> (exists X, In (X, ts) (groups l tss)) \/ In ts (plains l)) /\
+  (forall ts, In ts (flat_map leaves l) <-> (exists X r, In (X, r) (groups l tss) /\ In ts X) \/ In ts (plains l)) /\
+  (forall X r, In (X, r) (groups l tss) -> exists l', In (GM l') l /\ X = leaves (GM l') /\ geval (GM l') = Ok r).
+Proof.
+  induction l as [|c rest IH]; intros tss H; cbn [mapM] in H.
+  - inversion H; subst tss. cbn [groups plains flat_map In]. split; [|split].
+    + intros ts. split; [intros []|intros [(X & [])|[]]].
+    + intros ts. split; [intros []|intros [(X & r & [] & _)|[]]].
+    + intros X r [].
+  - destruct (geval c) as [a| |] eqn:Ec; cbn [bind] in H; try discriminate.
+    destruct (mapM geval rest) as [tr| |] eqn:Er; cbn [bind] in H; try discriminate. inversion H; subst tss.
+    destruct (IH tr eq_refl) as (I1 & I2 & I3). destruct c as [a0|l'].
+    + cbn [geval] in Ec. inversion Ec; subst a0. cbn [groups plains flat_map leaves In app]. split; [|split].
+      * intros ts. rewrite (I1 ts). tauto.
+      * intros ts. rewrite (I2 ts). tauto.
+      * intros X r Hin. destruct (I3 X r Hin) as (l' & Hl' & E & Hg). exists l'. split; [right; exact Hl'|auto].
+    + cbn [groups plains flat_map In]. split; [|split].
+      * intros ts. rewrite (I1 ts). split.
+        -- intros [<-|[(X & HX)|Hp]]; [left; exists (leaves (GM l')); left; reflexivity|left; exists X; right; exact HX|right; exact Hp].
+        -- intros [(X & [HX|HX])|Hp]; [left; inversion HX; reflexivity|right; left; exists X; exact HX|right; right; exact Hp].
+      * intros ts. rewrite in_app_iff, (I2 ts). split.
+        -- intros [Hl|[(X & r & HX & Hin)|Hp]]; [left; exists (leaves (GM l')), a; split; [left; reflexivity|exact Hl]|left; exists X, r; split; [right; exact HX|exact Hin]|right; exact Hp].
+        -- intros [(X & r & [HX|HX] & Hin)|Hp]; [left; inversion HX; subst X r; exact Hin|right; left; exists X, r; auto|right; right; exact Hp].
+      * intros X r [HX|Hin].
+        -- inversion HX; subst X r. exists l'. split; [left; reflexivity|auto].
+        -- destruct (I3 X r Hin) as (l0 & Hl0 & E & Hg). exists l0. split; [right; exact Hl0|auto].
+Qed.
+Lemma mapM_err : forall l e, mapM geval l = Err e -> exists c, In c l /\ geval c = Err e.
+Proof.
+  induction l as [|c rest IH]; intros e H; cbn [mapM] in H; [discriminate|].
+  destruct (geval c) as [a|e0|] eqn:Ec; cbn [bind] in H; try discriminate.
+  - destruct (mapM geval rest) as [tr|e1|] eqn:Er; cbn [bind] in H; try discriminate. inversion H; subst e1.
+    destruct (IH e eq_refl) as (c0 & Hc0 & H0). exists c0. split; [right; exact Hc0|exact H0].
+  - inversion H; subst e0. exists c. split; [left; reflexivity|exact Ec].
+Qed.
+Lemma mapM_fuel : forall l, mapM geval l = OutOfFuel -> exists c, In c l /\ geval c = OutOfFuel.
+Proof.
+  induction l as [|c rest IH]; intros H; cbn [mapM] in H; [discriminate|].
+  destruct (geval c) as [a|e0|] eqn:Ec; cbn [bind] in H; try discriminate.
+  - destruct (mapM geval rest) as [tr|e1|] eqn:Er; cbn [bind] in H; try discriminate.
+    destruct (IH eq_refl) as (c0 & Hc0 & H0). exists c0. split; [right; exact Hc0|exact H0].
+  - exists c. split; [left; reflexivity|exact Ec].
+Qed.
+
+(* what holds of a merge node whose flat tuple meets the side condition *)
+Definition node_ok (l : list gexp) : Prop :=
+  all_WFh (flat_map leaves l) -> nofinal (type_list (flat_map leaves l)) -> side_cond (type_list (flat_map leaves l)) ->
+  match geval (GM l) with
+  | Ok r => describes (type_list (flat_map leaves l)) r /\ sup_sound (type_list (flat_map leaves l)) r /\ exists ts, merge (flat_map leaves l) = Ok ts
+  | Err e => e = EValue /\ forall ts, merge (flat_map leaves l) <> Ok ts
+  | OutOfFuel => False
+  end.
+Definition gP (e : gexp) : Prop := match e with GIn _ => True | GM l => node_ok l end.
+
+Lemma all_nodes_ok : forall e, gP e.
+Proof.
+  apply gexp_ind'; [intros ts; exact I|]. intros l HF. cbn [gP]. unfold node_ok. intros HW NF SC.
+  set (S := flat_map leaves l) in *. rewrite Forall_forall in HF.
+  (* a sub-merge sees a sub-tuple: the premises restrict *)
+  assert (Hsub : forall l', In (GM l') l -> (forall ts, In ts (flat_map leaves l') -> In ts S) /\
+            all_WFh (flat_map leaves l') /\ nofinal (type_list (flat_map leaves l')) /\ side_cond (type_list (flat_map leaves l'))).
+  { intros l' Hl'. assert (HXZ : forall ts, In ts (flat_map leaves l') -> In ts S).
+    { intros ts Hts. unfold S. apply in_flat_map. exists (GM l'). split; [exact Hl'|exact Hts]. }
+    split; [exact HXZ|]. split; [apply (HWX _ S HXZ HW)|]. split; [apply (restrict_nofinal _ S HXZ NF)|apply (restrict_side_cond _ S HXZ SC)]. }
+  assert (Hchild : forall l', In (GM l') l -> match geval (GM l') with
+            | Ok r => describes (type_list (flat_map leaves l')) r /\ sup_sound (type_list (flat_map leaves l')) r /\ exists ts, merge (flat_map leaves l') = Ok ts
+            | Err e => e = EValue /\ forall ts, merge (flat_map leaves l') <> Ok ts
+            | OutOfFuel => False end).
+  { intros l' Hl'. destruct (Hsub l' Hl') as (_ & H1 & H2 & H3). apply (HF (GM l') Hl' H1 H2 H3). }
+  cbn [geval]. destruct (mapM geval l) as [tss|e|] eqn:EM; cbn [bind].
+  - destruct (mapM_groups l tss EM) as (HZ1 & HZ & HGsrc).
+    assert (HG : forall X r, In (X, r) (groups l tss) -> describes (type_list X) r /\ sup_sound (type_list X) r).
+    { intros X r Hin. destruct (HGsrc X r Hin) as (l' & Hl' & -> & Hg). pose proof (Hchild l' Hl') as Hc. rewrite Hg in Hc.
+      destruct Hc as (D & SS & _). split; assumption. }
+    pose proof (rg_HWZ1 (groups l tss) (plains l) tss S HZ1 HZ HW HG) as HW1.
+    destruct (merge tss) as [ts1|e1|] eqn:E1.
+    + destruct (rg_describes_flat (groups l tss) (plains l) tss S HZ1 HZ HW HG ts1 E1) as [D SS]. split; [exact D|]. split; [exact SS|].
+      apply (rg_backward (groups l tss) (plains l) tss S HZ1 HZ HW HG ts1 NF SC E1).
+    + split; [apply (merge_error_is_value tss e1 HW1 E1)|]. intros ts E2.
+      destruct (rg_forward (groups l tss) (plains l) tss S HZ1 HZ HW HG NF SC (ex_intro _ ts E2)) as (ts1 & Hts1). congruence.
+    + apply (merge_terminates tss HW1 E1).
+  - destruct (mapM_err l e EM) as (c & Hc & Hg). destruct c as [a|l']; [discriminate|].
+    pose proof (Hchild l' Hc) as Hch. rewrite Hg in Hch. destruct Hch as [-> Hnever]. split; [reflexivity|]. intros ts E2.
+    destruct (Hsub l' Hc) as (HXZ & H1 & H2 & H3).
+    destruct (proj1 (merge_success_iff S HW NF SC) (ex_intro _ ts E2)) as [MH HA].
+    destruct (merge_succeeds (flat_map leaves l') H1 H2 H3 (restrict_mergeable _ S HXZ HW SC MH) (restrict_AG _ S HXZ HA)) as (r & Hr).
+    apply (Hnever r Hr).
+  - destruct (mapM_fuel l EM) as (c & Hc & Hg). destruct c as [a|l']; [discriminate|].
+    pose proof (Hchild l' Hc) as Hch. rewrite Hg in Hch. exact Hch.
+Qed.
+
+(* GROUPING, in general: under the side condition of the flat tuple of its inputs, any nesting of merges has the same
+   outcome as the merge of all the inputs at once *)
+Theorem merge_any_grouping l : all_WFh (flat_map leaves l) -> nofinal (type_list (flat_map leaves l)) -> side_cond (type_list (flat_map leaves l)) ->
+  same_outcome (geval (GM l)) (merge (flat_map leaves l)).
+Proof.
+  intros HW NF SC. pose proof (all_nodes_ok (GM l) HW NF SC) as H. unfold same_outcome.
+  destruct (geval (GM l)) as [r|e|].
+  - destruct H as (D & _ & ts & Hts). rewrite Hts.
+    apply (describes_equiv _ _ r ts (same_static_refl _) (type_list_has_supers _ HW) (type_list_has_supers _ HW) D (merge_describes _ _ HW Hts)).
+  - destruct H as [-> Hnever]. destruct (merge (flat_map leaves l)) as [ts|e2|] eqn:E2.
+    + exfalso. apply (Hnever ts eq_refl).
+    + split; [reflexivity|apply (merge_error_is_value _ e2 HW E2)].
+    + apply (merge_terminates _ HW E2).
+  - exact H.
+Qed.
+
+(* ORDER AND GROUPING together: any nesting of merges over inputs whose flat tuple meets the side condition has the same
+   outcome as the flat merge of any tuple with the same declarations (a permutation of the inputs in particular) *)
+Theorem merge_any_order_and_grouping l inputs' : all_WFh (flat_map leaves l) -> all_WFh inputs' ->
+  nofinal (type_list (flat_map leaves l)) -> side_cond (type_list (flat_map leaves l)) ->
+  same_static (type_list (flat_map leaves l)) (type_list inputs') ->
+  same_outcome (geval (GM l)) (merge inputs').
+Proof.
+  intros HW HW' NF SC HS. set (S := flat_map leaves l) in *. set (L := type_list S) in *. set (L' := type_list inputs') in *.
+  pose proof (ss_nofinal L L' (proj1 HS) NF) as NF'. pose proof (ss_side_cond L L' (proj1 HS) SC) as SC'. pose proof (same_static_sym _ _ HS) as HS'.
+  pose proof (all_nodes_ok (GM l) HW NF SC) as H. unfold same_outcome. destruct (geval (GM l)) as [r|e|].
+  - destruct H as (D & _ & ts & Hts). destruct (proj1 (merge_success_iff S HW NF SC) (ex_intro _ ts Hts)) as [MH HA].
+    destruct (merge_succeeds inputs' HW' NF' SC' (ss_mergeable L L' (proj1 HS) MH) (ss_AG L L' HS HA)) as (ts' & Hts'). rewrite Hts'.
+    apply (describes_equiv L L' r ts' HS (type_list_has_supers _ HW) (type_list_has_supers _ HW') D (merge_describes _ _ HW' Hts')).
+  - destruct H as [-> Hnever]. destruct (merge inputs') as [ts'|e2|] eqn:E2.
+    + exfalso. destruct (proj1 (merge_success_iff inputs' HW' NF' SC') (ex_intro _ ts' E2)) as [MH HA].
+      destruct (merge_succeeds S HW NF SC (ss_mergeable L' L (proj1 HS') MH) (ss_AG L' L HS' HA)) as (ts & Hts). apply (Hnever ts Hts).
+    + split; [reflexivity|apply (merge_error_is_value _ e2 HW' E2)].
+    + apply (merge_terminates _ HW' E2).
+  - exact H.
 Qed.
